@@ -19,8 +19,14 @@ def make_type(kind, w, enc, order, var=""):
                                      calibrators.ContextCalibrator([comparisons.Comparison("0", "MODE", "<")], poly)]
     if kind == "int":
         return parameter_types.IntegerParameterType("T", encodings.IntegerDataEncoding(w, enc, byte_order=ORD[order], **kw))
-    return parameter_types.FloatParameterType("T", encodings.FloatDataEncoding(
-        w, encoding="MILSTD_1750A" if kind == "mil" else enc, byte_order=ORD[order], **kw))
+    name = "MILSTD_1750A" if kind == "mil" else enc
+    if var == "alias":
+        # the tolerated legacy spellings of the two float formats (accepted with a warning) mean the same formats
+        name = "MIL-1750A" if kind == "mil" else "IEEE-754"
+    import warnings
+    with warnings.catch_warnings():
+        warnings.simplefilter("ignore")
+        return parameter_types.FloatParameterType("T", encodings.FloatDataEncoding(w, encoding=name, byte_order=ORD[order], **kw))
 
 
 _TYPES = {}
@@ -85,7 +91,7 @@ def run(ctx):
             continue      # quick: a quarter of the binary16 patterns (all of them in the TLC run and in thorough)
         offsets = offs_all if (not q or len(bits) > 16 or i % 16 == 0) else [0, 1 + i % 7]
         for off in offsets:
-            var = "ctx" if (i + off) % 5 == 0 else ""
+            var = "ctx" if (i + off) % 5 == 0 else ("alias" if kind != "int" and (i + off) % 5 == 1 else "")
             ctx.count(("A", kind, tuple(bits), enc, order, off, var))
             ctx.traces += 1
             try:
@@ -103,7 +109,7 @@ def run(ctx):
             except Exception as e:  # noqa: BLE001
                 prob = f"exception {type(e).__name__}: {e}"
             if prob:
-                ctx.violation(f"C04/replay/{kind}/{enc}/{order}/{'aligned' if off == 0 else 'unaligned'}{'/inapplicable-context-calibrators' if var else ''}",
+                ctx.violation(f"C04/replay/{kind}/{enc}/{order}/{'aligned' if off == 0 else 'unaligned'}{('/inapplicable-context-calibrators' if var == 'ctx' else '/legacy-spelling' if var else '')}",
                               prob, {"k": kind, "b": bits, "e": enc, "o": order, "off": off, "var": var})
         if kind != "int" and row["r"]["cls"] == "fin" and len(bits) > 16:
             ctx.sample({"direction": "spec->code", "kind": kind, "bits": "".join(map(str, bits)), "order": order, "expected": want}, limit=3)
@@ -137,7 +143,7 @@ def run(ctx):
             if w > 12:
                 for j in range(rng.randrange(4)):
                     bits[rng.randrange(w)] ^= 1
-        var = "ctx" if rng.random() < 0.3 else ""
+        var = "ctx" if rng.random() < 0.3 else ("alias" if kind != "int" and rng.random() < 0.3 else "")
         try:
             lines.append(line_for(kind, bits, enc, order, off, rng, var))
         except Exception as e:  # noqa: BLE001
@@ -147,7 +153,7 @@ def run(ctx):
     rej = tables.validate_lines(ctx, "Trace_Numeric", lines, "decodes", jobs=16)
     for idx, clause in rej.items():
         ln = lines[idx]
-        ctx.violation(f"C04/trace/{ln['k']}/{clause[0]}/{ln['e']}/{ln['o']}{'/inapplicable-context-calibrators' if ln['var'] else ''}",
+        ctx.violation(f"C04/trace/{ln['k']}/{clause[0]}/{ln['e']}/{ln['o']}{('/inapplicable-context-calibrators' if ln['var'] == 'ctx' else '/legacy-spelling' if ln['var'] else '')}",
                       f"logged decode rejected by Trace_Numeric ({clause[0]}): bits {''.join(map(str, ln['b']))} -> {ln['r']} class {ln['c']}",
                       {"k": ln["k"], "b": ln["b"], "e": ln["e"], "o": ln["o"], "off": ln["off"], "var": ln["var"]})
     ctx.sample({"direction": "code->spec", **{k: lines[0][k] for k in ("k", "e", "o", "off", "r", "c", "adv")},
